@@ -8,3 +8,9 @@ for _i in range(1, 21):
     _name = f"c{_i:02d}"
     if os.path.exists(os.path.join(_here, _name + ".py")):
         CHECKS[_name.upper()] = importlib.import_module(_name).CHECK
+
+# Properties whose checks the lead has verified end to end (claimed in MANIFEST.json and built by
+# bin/setup). Others may exist in CHECKS while still under construction.
+_ready_path = os.path.join(_here, "ready.txt")
+READY = [l.strip() for l in open(_ready_path)] if os.path.exists(_ready_path) else []
+READY = [r for r in READY if r in CHECKS]
